@@ -144,6 +144,24 @@ impl IRB for R {
     }
 }
 
+/// trait-level marker (plain `Result`) TOGETHER with a method-level marker naming a result alias: the method-level
+/// one decides for its method
+#[cglue_trait]
+#[int_result]
+pub trait IRC {
+    fn irc_plain(&self, fail: bool) -> Result<u64, ()>;
+    #[int_result(IoRes)]
+    fn irc_alias(&self, fail: bool) -> IoRes<u32>;
+}
+impl IRC for R {
+    fn irc_plain(&self, fail: bool) -> Result<u64, ()> {
+        if fail { Err(()) } else { Ok(self.k ^ 11) }
+    }
+    fn irc_alias(&self, fail: bool) -> IoRes<u32> {
+        if fail { Err(std::io::Error::from_raw_os_error(7)) } else { Ok(self.k as u32 ^ 13) }
+    }
+}
+
 /// Drive one entry: integer-coded iff `expect_int`; 0 exactly for Ok; slot written iff Ok.
 fn drive_entry<F: EntryShape<T>, T: Copy + PartialEq>(f: F, cont: *const u8, fail: bool, sentinel: T, ok_val: T, expect_int: bool) {
     let mut out = MaybeUninit::<T>::uninit();
@@ -201,6 +219,28 @@ nd::harnesses! {
             }
             core::mem::forget(r);
         }
+    }
+
+    /// Trait-level and method-level markers on one trait: both methods are integer-coded, each by its own marker.
+    fn c13e_trait_and_method_markers() {
+        let twin = R { k: nd::any() };
+        let k = twin.k;
+        let fail: bool = nd::any();
+        let s64: u64 = nd::any();
+        let s32: u32 = nd::any();
+        nd::cover!(fail, "Err");
+        nd::cover!(!fail, "Ok");
+        let c = trait_obj!(&twin as IRC);
+        let vc: &IRCVtbl<_> = c.get_vtbl_base();
+        let (_, cont) = c_view(&c, vc, 0, 2);
+        drive_entry(vc.irc_plain(), cont, fail, s64, k ^ 11, true);
+        drive_entry(vc.irc_alias(), cont, fail, s32, k as u32 ^ 13, true);
+        let r = c.irc_alias(fail);
+        match &r {
+            Ok(v) => assert!(!fail && *v == k as u32 ^ 13),
+            Err(e) => assert!(fail && e.raw_os_error() == Some(7)),
+        }
+        core::mem::forget(r);
     }
 
     /// Rust-side round trip equals the direct call, for every marker combination.
